@@ -2195,11 +2195,9 @@ def _np_sort(it, a, *args, **kw):
         fv.pop(str(j), None)
         names = sorted(fv)
         hsh = hashlib.sha256((body.sexpr() + "|" + str(M)).encode()).hexdigest()[:12]
-        import os
-        if os.environ.get("AOVC_DEBUG_SORT"):
-            print("ORDSTAT", hsh, body.sexpr(), "|", M)
         args_ = [fv[n] for n in names] + [zi(k) if not is_conc(k) else z3.IntVal(int(k))]
-        F = z3.Function("OrdStat_%s" % hsh, *([x.sort() for x in args_] + [z3.RealSort()]))
+        rng = z3.IntSort() if a.dtype == "int" else z3.RealSort()
+        F = z3.Function("OrdStat%s_%s" % ("I" if a.dtype == "int" else "", hsh), *([x.sort() for x in args_] + [rng]))
         return F(*args_)
     return Arr(list(a.shape), elem, a.dtype)
 
